@@ -901,7 +901,14 @@ pixman_image_fill_boxes (pixman_op_t           op,
         op = PIXMAN_OP_SRC;
     }
 
-    if (op == PIXMAN_OP_SRC)
+    /* The pixels can be filled in directly only if they are plain memory:
+     * an image with accessors is written through its write_func, and one
+     * with an alpha map keeps its alpha channel elsewhere.
+     */
+    if (op == PIXMAN_OP_SRC				&&
+	!dest->bits.read_func				&&
+	!dest->bits.write_func				&&
+	!dest->common.alpha_map)
     {
         uint32_t pixel;
 
